@@ -133,15 +133,24 @@ func runC06(r *core.Run, tier string) {
 func c06SinterpOffByOne(src string) bool {
 	lines := strings.Split(src, "\n")
 	ind := func(l string) int { return len(l) - len(strings.TrimLeft(l, " \t")) }
+	// lines that begin inside a several-line raw string are text, not layout
+	inside := make([]bool, len(lines))
+	open := false
+	for i, l := range lines {
+		inside[i] = open
+		if strings.Count(l, "`")%2 == 1 {
+			open = !open
+		}
+	}
 	for i, l := range lines {
 		t := strings.TrimLeft(l, " \t")
-		if !strings.HasPrefix(t, "$") {
+		if !strings.HasPrefix(t, "$") || inside[i] {
 			continue
 		}
 		c := ind(l)
 		for j := i - 1; j >= 0; j-- {
 			tj := strings.TrimSpace(lines[j])
-			if tj == "" || strings.HasPrefix(tj, "//") || strings.HasPrefix(tj, "/*") || strings.HasPrefix(tj, "line ") || strings.HasSuffix(tj, "*/") && !strings.Contains(tj, "/*") {
+			if inside[j] || tj == "" || strings.HasPrefix(tj, "//") || strings.HasPrefix(tj, "/*") || strings.HasPrefix(tj, "line ") || strings.HasSuffix(tj, "*/") && !strings.Contains(tj, "/*") {
 				continue
 			}
 			k := ind(lines[j])
